@@ -10,6 +10,9 @@
 //        out-of-order semaphore with a long queue of never-satisfied waiters on one vCPU and a waiter W of 1 token at its tail;
 //        one plain OS thread signals 1 token whenever W waits, another one interrupts W whenever it waits: signal() has to walk the
 //        queue past the big waiters while W is being interrupted / resumed from elsewhere
+//   semtight <signals> <ooo 0|1> <waiters>
+//        waiters of 3 tokens with 20..60 us timeouts in a loop on one vCPU, a plain OS thread signalling 1 token at a time without
+//        pause: the resume pass of signal() keeps racing with waiters that time out and leave the queue
 //   semd <nvcpu> <pairs> <rounds> <os 0|1>
 //        destroy right after wait: the waiter destroys the semaphore and fills its memory with a pattern as soon as wait() returns;
 //        when the signaller's signal() has returned the pattern must be intact:   late-write <pair> <round>   otherwise
@@ -204,6 +207,16 @@ static void semooo_W() {
 }
 static void semooo_S() { while (!o_stop.load()) { if (o_waiting.load()) { ev(SIGNAL, 1, 1); g_sem->signal(1); progress++; } spin_ns(200); } }
 static void semooo_X() { while (!o_stop.load()) { if (o_waiting.load()) { auto th = o_W.load(); if (th) thread_interrupt(th, EINTR); } spin_ns(300); } }
+static void semtight_W(int id) {
+    unsigned rs = 77 + id;
+    while (!o_stop.load()) {
+        rs = rs * 1103515245 + 12345;
+        if (g_sem->wait_interruptible(3, 20 + (rs >> 16) % 40) == 0) ev(GOT, id, 3);
+        progress++;
+    }
+    finished_threads++;
+}
+static void semtight_S(long n) { for (long i = 0; i < n; ++i) { ev(SIGNAL, 1, 1); g_sem->signal(1); progress++; } o_stop = true; }
 struct Pair { std::atomic<semaphore*> sem{nullptr}; std::atomic<int> signalled{0}, taken{0}; };
 static void semd_waiter(Pair* p, int id, int rounds) {
     for (int r = 0; r < rounds; ++r) {
@@ -304,6 +317,14 @@ static int run_program(const std::vector<std::string>& lines) {
         os.emplace_back([] { while (!o_W.load()) usleep(100); semooo_S(); });
         os.emplace_back([] { while (!o_W.load()) usleep(100); semooo_X(); });
         total_threads = 1;
+    } else if (kind == "semtight") {
+        long n; int ooo, nw; is >> n >> ooo >> nw;
+        g_sem = new semaphore(0, !ooo);
+        std::vector<std::function<void()>> b;
+        for (int k = 0; k < nw; ++k) b.push_back([k] { semtight_W(k + 1); });
+        on_vcpu(b);
+        os.emplace_back([n] { usleep(2000); semtight_S(n); });
+        total_threads = nw;
     } else if (kind == "semd") {
         int nv, pairs, rounds, useos; is >> nv >> pairs >> rounds >> useos;
         std::vector<std::vector<std::function<void()>>> per(nv);
